@@ -87,9 +87,10 @@ type Plan struct {
 
 // Value scripts the stored value of a key for MGET (Null = absent).
 type Value struct {
-	Key  Bin  `json:"key"`
-	Val  Bin  `json:"val,omitempty"`
-	Null bool `json:"null,omitempty"`
+	Key   Bin  `json:"key"`
+	Val   Bin  `json:"val,omitempty"`
+	Null  bool `json:"null,omitempty"`
+	Store bool `json:"store,omitempty"` // the key has store semantics: GET returns what an earlier SET wrote (null before)
 }
 
 // ClientSpec is one client connection: its pipeline and how the bytes are cut into writes.
@@ -200,10 +201,12 @@ func (g *gateSet) counts() (total, released int) {
 type planIndex struct {
 	plans  map[string]*Plan
 	values map[string]*Value
+	mu     sync.Mutex
+	stored map[string][]byte
 }
 
 func indexPlans(spec *PipeSpec) *planIndex {
-	pi := &planIndex{plans: map[string]*Plan{}, values: map[string]*Value{}}
+	pi := &planIndex{plans: map[string]*Plan{}, values: map[string]*Value{}, stored: map[string][]byte{}}
 	for i := range spec.Plans {
 		pi.plans[string(spec.Plans[i].Key)] = &spec.Plans[i]
 	}
@@ -246,8 +249,27 @@ func keysOf(name string, args [][]byte) [][]byte {
 	return nil
 }
 
+// storeKey returns the Value entry if this is a SET or GET on a key with store semantics.
+func (pi *planIndex) storeKey(name string, keys [][]byte) *Value {
+	if (name != "set" && name != "get") || len(keys) == 0 {
+		return nil
+	}
+	if v := pi.values[string(keys[0])]; v != nil && v.Store {
+		return v
+	}
+	return nil
+}
+
 // naturalReply is what the fake node answers to a fragment when no plan overrides it.
+// For keys with store semantics it is the reply of a store in which every SET of the pipeline has been applied
+// in client order (the generators place one SET before one GET).
 func (pi *planIndex) naturalReply(name string, args [][]byte) []byte {
+	if v := pi.storeKey(name, keysOf(name, args)); v != nil {
+		if name == "set" {
+			return []byte("+OK\r\n")
+		}
+		return refmodel.Bulk(v.Val)
+	}
 	switch name {
 	case "mget":
 		items := make([][]byte, 0, len(args)-1)
@@ -280,7 +302,19 @@ func (pi *planIndex) handler(gates *gateSet) fakecluster.Handler {
 		keys := keysOf(req.Name, req.Args)
 		p := pi.fragPlan(keys)
 		a := fakecluster.Action{}
-		if p != nil && p.Reply != nil {
+		if v := pi.storeKey(req.Name, keys); v != nil {
+			// store semantics, decided at arrival time
+			pi.mu.Lock()
+			if req.Name == "set" && len(req.Args) > 2 {
+				pi.stored[string(keys[0])] = append([]byte(nil), req.Args[2]...)
+				a.Reply = []byte("+OK\r\n")
+			} else if cur, ok := pi.stored[string(keys[0])]; ok {
+				a.Reply = refmodel.Bulk(cur)
+			} else {
+				a.Reply = refmodel.NullBulk
+			}
+			pi.mu.Unlock()
+		} else if p != nil && p.Reply != nil {
 			a.Reply = p.Reply
 		} else {
 			a.Reply = pi.naturalReply(req.Name, req.Args)
